@@ -312,10 +312,17 @@ def run(chk, replay=None):
     all_cases, all_runs = [], {}
     stats = {"systematic_runs": 0, "random_runs": 0, "deadlock_reports": 0, "configs": {}}
 
+    verdict = {}          # cid -> oracle message (None = holds)
+    nbad = [0]
+    ENOUGH = 40           # failing runs after which further exploration adds nothing
+
     def absorb(cases, runs):
         for c in cases:
             all_cases.append(c)
             all_runs[c.cid] = runs[c.cid]
+            verdict[c.cid] = oracle(c, runs[c.cid])
+            if verdict[c.cid] is not None:
+                nbad[0] += 1
 
     if replay:
         cases = schedlib.load_cases(replay)
@@ -334,7 +341,7 @@ def run(chk, replay=None):
         cfgs = small_configs(tier)
         enums = {c[0]: schedlib.Enumerator(bound, per_cfg) for c in cfgs}
         counter = 0
-        while any(e.active() for e in enums.values()):
+        while any(e.active() for e in enums.values()) and nbad[0] < ENOUGH:
             cases, owners = [], []
             for (name, kind, cap, count, spur, thr, progs) in cfgs:
                 e = enums[name]
@@ -360,10 +367,15 @@ def run(chk, replay=None):
         # random programs x random schedules
         nrand = 4000 if tier == "quick" else 100000
         cases = [gen_random_case(rng, "r%d" % i) for i in range(nrand)]
-        for i in range(0, len(cases), 20000):
-            chunk = cases[i:i + 20000]
+        ndone = 0
+        for i in range(0, len(cases), 2000):
+            if nbad[0] >= ENOUGH:
+                break
+            chunk = cases[i:i + 2000]
             absorb(chunk, R.run_impl(chunk))
-        stats["random_runs"] = nrand
+            ndone += len(chunk)
+        stats["random_runs"] = ndone
+        stats["stopped_early_after_failures"] = nbad[0] >= ENOUGH
     t_impl = time.time()
 
     # oracle on every run
@@ -374,7 +386,7 @@ def run(chk, replay=None):
         chk.cov["evaluations"] += 1
         if r.deadlock:
             stats["deadlock_reports"] += 1
-        msg = oracle(c, r)
+        msg = verdict[c.cid]
         if msg is not None:
             oracle_bad.append((c, msg))
         if nontrivial(r):
